@@ -1,14 +1,14 @@
 /*@unit {
  'kind': 'bounded', 'mode': 'plain',
- 'bound': 'capacity 2..8, history depth 1..2 (or none), prompt "$ ", echo on, one call of vterm_automate_newdata from every steady editor state (automaton state 2, any len/cursor/content/escape phase/browse index/history content within these sizes), input byte from the reduced alphabet {printable 0x20..0x7E, BS, ESC, CR, LF, Ctrl-C}; line and history characters printable; all loops unwound completely for these sizes (unwinding assertions)',
+ 'bound': 'capacity 2..8, history depth 1..2 (or none), prompt "$ ", echo on, one call of vterm_automate_newdata from every steady editor state (automaton state 2, any len/cursor/content/escape phase/browse index/history content within these sizes), input byte from the reduced key alphabet {space, a, ~, [, A, B, C, D, 3, BS, ESC, CR, LF, Ctrl-C} (one run per escape phase ST and key KEY: with the key a constant the symbolic execution walks one branch of the automata); line and history characters printable; all loops unwound completely for these sizes (unwinding assertions)',
  'functions': ['vterm_automate_newdata', 'readline_putchar', 'vt100_left'],
- 'params': {'CASE': [0, 1, 2, 3, 4, 5, 6, 7, 8, 9, 10, 11]},
+ 'params': {'ST': [0, 1, 2, 3], 'KEY': [32, 97, 126, 91, 65, 66, 67, 68, 51, 8, 27, 13, 10, 3]},
  'unwind': 11,
  'complete_unwinding': 'every loop is bounded by the sizes of the bound: state-machine loop <= 5 rounds, blocks written <= 10 bytes, decimal digits of a one-digit argument, libc models over <= 8 bytes; unwound 11 times with unwinding assertions',
  'clauses': 'screen clause: the bytes handed to write_callback, fed to a VT100 model (spec/c15_vt100_model.h: one row tracked at an arbitrary ghost column, a cursor column) that shows the prompt and the line with the cursor at prompt+cursor, leave it showing the prompt and the NEW line with the cursor at prompt+cursor (after a delivered line / Ctrl-C: a fresh row with just the prompt); no unmodelled byte is written',
  'kf': ['C15_echo_refused', 'C15_updateline_cursor'],
- 'kf_probe_case': {'C15_echo_refused': {'CASE': 3}, 'C15_updateline_cursor': {'CASE': 5}},
- 'timeout': 300,
+ 'kf_probe_case': {'C15_echo_refused': {'ST': 0, 'KEY': 97}, 'C15_updateline_cursor': {'ST': 2, 'KEY': 65}},
+ 'timeout': 120,
  'witness': {'unwind': 11},
 } @*/
 #include "vc.h"
@@ -30,26 +30,15 @@ static void g_cb(void *priv, const char *p, unsigned n)
 }
 static int c15_printable(char ch) { return ch >= 0x20 && ch <= 0x7E; }
 
-/* key classes as in unit readline_putchar (0 end of line, 1 BS, 2 ESC, 3 ordinary (here: printable) in phase 0; 4 after ESC; 5..9 after ESC [ :
-   A, B, C or D, 3, other; 10 after ESC [ 3) plus 11: Ctrl-C in any phase */
-#define C15_CLASS_OF(st, ch)                                                                                   \
-    ((ch) == ED_KEY_CTRL_C ? 11                                                                                \
-     : (st) == 0 ? (spec_ed_is_eol(ch) ? 0 : (ch) == ED_KEY_BS ? 1 : (ch) == ED_KEY_ESC ? 2 : 3)                \
-     : (st) == 1 ? 4                                                                                           \
-     : (st) == 2 ? ((ch) == 'A' ? 5 : (ch) == 'B' ? 6 : ((ch) == 'C' || (ch) == 'D') ? 7 : (ch) == '3' ? 8 : 9) \
-     : 10)
-
 void harness(void)
 {
     struct vterm_automate vt;
-    WIT(uint, cap); WIT(uint, len); WIT(uint, cursor); WIT(uint8_t, rlstate0); WIT(char, last); WIT(char, c0);
+    WIT(uint, cap); WIT(uint, len); WIT(uint, cursor); WIT(char, last);
     WIT(uint8_t, H); WIT(uint8_t, head); WIT(uint8_t, browse); WIT(uint, L0); WIT(uint, L1); WIT(size_t, g);
     WIT_ARR(char, buf, MAXCAP);      /* the line buffer (its first cap bytes are used) */
     WIT_ARR(char, hist, 2 * MAXCAP); /* the history space */
-    const uint8_t rlstate = CASE <= 3 ? 0 : CASE == 4 ? 1 : CASE <= 9 ? 2 : CASE == 10 ? 3 : rlstate0;
-    const char c = CASE == 1 ? ED_KEY_BS : CASE == 2 ? ED_KEY_ESC : CASE == 5 ? 'A' : CASE == 6 ? 'B' : CASE == 8 ? '3' : CASE == 11 ? ED_KEY_CTRL_C : c0;
-    __CPROVER_assume(rlstate <= 3 && C15_CLASS_OF(rlstate, c) == CASE);
-    __CPROVER_assume(c15_printable(c) || c == ED_KEY_BS || c == ED_KEY_ESC || c == ED_KEY_CR || c == ED_KEY_LF || c == ED_KEY_CTRL_C); /* reduced alphabet */
+    const uint8_t rlstate = ST;
+    const char c = KEY;
     __CPROVER_assume(cap >= 2 && cap <= MAXCAP && cursor <= len && len <= cap - 1);
     __CPROVER_assume(H <= 2 && (H == 0 || (head < H && browse <= H)));
     for (unsigned i = 0; i < MAXCAP; i++) if (i < len) __CPROVER_assume(c15_printable(buf[i]));
@@ -64,8 +53,8 @@ void harness(void)
     vt.rl.state = rlstate; vt.rl.last = last; vt.rl.lastsize = 0;
     vt.rl.history_space = H ? hist : NULL; vt.rl.history_size = H ? H : 1; vt.rl.headhist = H ? head : 0; vt.rl.curhist = H ? browse : 0;
     /* known findings */
-    int kf_echo = CASE == 3 && len >= cap - 1;
-    int kf_upd = H != 0 && ((CASE == 5 && browse < H) || (CASE == 6 && browse > 0)) && cursor != len;
+    int kf_echo = rlstate == 0 && c15_printable(c) && len >= cap - 1;
+    int kf_upd = rlstate == 2 && H != 0 && ((c == 'A' && browse < H) || (c == 'B' && browse > 0)) && cursor != len;
     __CPROVER_assume(KF_C15_echo_refused == 0 ? 1 : KF_C15_echo_refused == 1 ? !kf_echo : kf_echo);
     __CPROVER_assume(KF_C15_updateline_cursor == 0 ? 1 : KF_C15_updateline_cursor == 1 ? !kf_upd : kf_upd);
     /* the screen shows the prompt and the line, cursor at prompt + cursor (stated at the ghost column g) */
